@@ -292,6 +292,7 @@ pub trait TypedIterable {
     {
         self.offset().ok_or(DSError::VoidRecord)?;
         let section = self.current_section()?;
+        let is_opt = section == Section::Additional && self.rr_type() == Type::OPT.into();
         if self.parsed_packet().maybe_compressed {
             let (uncompressed, new_offset) = {
                 let ref_offset = self.offset().expect("delete() called on a tombstone");
@@ -313,6 +314,14 @@ pub trait TypedIterable {
         self.set_offset_next(offset);
         self.invalidate();
         let parsed_packet = self.parsed_packet_mut();
+        if is_opt {
+            parsed_packet.offset_edns = None;
+            parsed_packet.edns_count = 0;
+            parsed_packet.ext_rcode = None;
+            parsed_packet.edns_version = None;
+            parsed_packet.ext_flags = None;
+            parsed_packet.max_payload = 512;
+        }
         let rrcount = parsed_packet.rrcount_dec(section)?;
         if rrcount <= 0 {
             let offset = match section {
